@@ -24,3 +24,24 @@ def with_dkg(ex, case):
     stubs_big.install(ex)
     stubs_chacha.install(ex)
     stubs_dkg.install(ex)
+
+_GALG = {}
+
+def with_galg(ex, case):
+    """C front-end with the algebraic group model at the BLST boundary"""
+    from . import llvm, galg, stubs_galg
+    base = driver.get_llvm()
+    L = _GALG.get('L')
+    if L is None:
+        L = llvm.LLVM(base.mod)
+        L.stubs = dict(base.stubs)
+        galg.install(L)
+        _GALG['L'] = L
+    ex.llvm = L
+    ex.galg_scalars = True
+    if galg.refine_model not in ex.model_refiners:
+        ex.model_refiners.append(galg.refine_model)
+    stubs_hash.install(ex)
+    stubs_big.install(ex)
+    stubs_chacha.install(ex)
+    stubs_galg.install(ex)
